@@ -29,10 +29,11 @@ Headers == IF Small THEN {N("hdr", "#\"b c\"", <<>>), N("hdr", "#a.asbool", <<>>
 Vars == IF Small THEN {N("var", "@v.k", <<>>)}
         ELSE {N("var", "@v", <<>>), N("var", "@v.k", <<>>), N("var", "@w.onchange.nocontrib", <<>>)}
 \* number literals keep their written kind and value: 2.0 is a decimal, a long integer keeps every digit
-\* a string literal may span lines: the line break and the blanks around it are part of the literal
-Terms == IF Small THEN {N("term", "\"s t\"", <<>>), N("term", "-2", <<>>), N("term", "/a.b/", <<>>), N("term", "2.0", <<>>), N("term", "\"x \n  y\"", <<>>)}
+\* a string literal may span lines: the line break and the blanks around it are part of the literal; a backslash is a
+\* character like any other ("a\tb" is four characters: there are no escape sequences)
+Terms == IF Small THEN {N("term", "\"s t\"", <<>>), N("term", "-2", <<>>), N("term", "/a.b/", <<>>), N("term", "2.0", <<>>), N("term", "\"x \n  y\"", <<>>), N("term", "\"a\\tb\"", <<>>)}
          ELSE {N("term", "\"s t\"", <<>>), N("term", "5", <<>>), N("term", "-2", <<>>), N("term", "1.5", <<>>), N("term", "/a.b/", <<>>),
-               N("term", "2.0", <<>>), N("term", "9007199254740993", <<>>), N("term", "\"x \n  y\"", <<>>)}
+               N("term", "2.0", <<>>), N("term", "9007199254740993", <<>>), N("term", "\"x \n  y\"", <<>>), N("term", "\"a\\tb\"", <<>>)}
 Refs == IF Small THEN {N("ref", "$p.variables.x.k", <<>>)}
         ELSE {N("ref", "$p.variables.x.k", <<>>), N("ref", "$p.headers.h", <<>>), N("ref", "$p.metadata.m", <<>>)}
 \* function lexicon: name (with qualifiers) and arity; an arbitrary-name qualifier keeps its case (count.nM)
